@@ -192,11 +192,35 @@ theorem ef_grun_spec (u m : Nat) : ∀ (ops : List EFOp) (b : EFB) (xs : List Na
     rfl
 
 /-- the generated `new(u, m)`: the same empty builder in every configuration -/
-theorem ef_new_good (u m : Nat) (hm : m ≠ 0) (hu : u < 2^64) (hsz : m + (u >>> lowLenOf u m) + 2 < 2^63) :
+theorem ef_new_good (u m : Nat) (hm : m ≠ 0) (hu : u < 2^64) (hsz : m + (u >>> lowLenOf u m) + 2 + 64 < 2^64) :
     ∃ b0, EFGood u m b0 [] ∧ ∀ c, GenFn.EliasFanoBuilder.new c u m = .ok (RS.Res.ok b0) := by
   obtain ⟨b0, hn, hh, hu0, hm0⟩ := new_holds u m hm hu
   refine ⟨b0, ⟨hh, fits_new u m b0 hu hn (by omega), hu0, hm0, efb_new_lowLen u m b0 hn⟩, fun c => ?_⟩
-  rw [efb_new_eq c u m hu (fun _ => by omega), hn]; rfl
+  rw [efb_new_eq c u m hu (fun _ => hsz), hn]; rfl
+
+/-- `extend(vs)` on a builder reached by a generated history, in the vocabulary of `C16.extend_spec`: the loop stops at
+    the first rejected item `vs[n]`, keeping `vs.take n` -/
+theorem ef_extend_good (u m : Nat) (b : EFB) (xs : List Nat) (g : EFGood u m b xs) (vs : List Nat) :
+    ∃ b' n, n ≤ vs.length ∧ EFGood u m b' (xs ++ vs.take n) ∧
+      (∀ c, GenFn.EliasFanoBuilder.extend c b vs = .ok (b', resU (decide (n = vs.length)))) ∧
+      (∀ v, vs[n]? = some v → v < b'.last ∨ b'.univ ≤ v ∨ b'.numVals ≤ b'.pos) := by
+  obtain ⟨hh, hf, hu, hm, hl⟩ := g
+  obtain ⟨b', n, hn, he, hh', hu', hm', hrej⟩ := C16.extend_spec vs b xs hh
+  obtain ⟨f1, f2⟩ := efb_extend_fits vs b b' _ hf he
+  refine ⟨b', n, hn, ⟨hh', f1, hu'.trans hu, hm'.trans hm, f2.trans hl⟩, fun c => ?_, hrej⟩
+  rw [efb_extend_eq c b hf vs, he]; rfl
+
+/-- `new(u, m)` and a push history (`genRun`): the same builders in every configuration, under the size bound that
+    `new` needs (the high-bit length rounded up to words is a `usize`) -/
+theorem ef_hist_good (u m : Nat) (hist : List Nat) (hm : m ≠ 0) (hu : u < 2^64)
+    (hsz : m + (u >>> lowLenOf u m) + 2 + 64 < 2^64) :
+    ∃ b0 b', EFGood u m b' (accepted u m [] hist) ∧
+      (∀ c, GenFn.EliasFanoBuilder.new c u m = .ok (RS.Res.ok b0)) ∧
+      (∀ c, genRun c b0 hist = .ok (b', (verdicts u m [] hist).map resU)) := by
+  obtain ⟨b0, g0, hn⟩ := ef_new_good u m hm hu hsz
+  obtain ⟨b', g', hr⟩ := ef_grun_spec u m (hist.map EFOp.push) b0 [] g0
+  simp only [efSpecOps_pushes, efGrun_pushes] at g' hr
+  exact ⟨b0, b', g', hn, hr⟩
 
 /-! ### `build()` + `enable_rank()` in two configurations -/
 
@@ -278,7 +302,7 @@ theorem ef_pipeline_ops (c c' : Cfg) (u m : Nat) (ops : List EFOp) (hm : m ≠ 0
       GenFn.EliasFano.len e0 = (efSpecOps u m [] ops).1.length ∧ GenFn.EliasFano.universe e0 = u ∧
       (∀ k, GenFn.EliasFano.select c e0 k = .ok (efSpecOps u m [] ops).1[k]?) ∧
       (∀ k, GenFn.EliasFano.select c' e0 k = .ok (efSpecOps u m [] ops).1[k]?) := by
-  obtain ⟨b0, g0, hn⟩ := ef_new_good u m hm hu hsz
+  obtain ⟨b0, g0, hn⟩ := ef_new_good u m hm hu (by omega)
   obtain ⟨b', g', hr⟩ := ef_grun_spec u m ops b0 [] g0
   obtain ⟨e0, e, k⟩ := ef_good_built c c' u m b' _ g' hu hsz
   exact ⟨b0, b', e0, e, g', hn, hr, k⟩
